@@ -100,7 +100,7 @@ for pid in ALL:
             "engine": "rqv",
             "level_claimed": {"category": cat, "text": text, "design_ref": "DESIGN.md section 7, %s" % pid},
             "level_note": note,
-            "technique": tech,
+            "technique": tech + (" ; thorough tier adds a coverage-guided libFuzzer stage (cargo-fuzz target with the same oracle inside)" if pid in ("C02","C03","C04","C11","C12") else ""),
         })
 na = []
 for pid in ALL:
@@ -120,6 +120,9 @@ m = {
   "engines": [{
     "name": "rqv", "path": "harness/", "serves_properties": sorted(CHECKS),
     "kind_free_text": "Rust harness: seeded, 16-way sharded proptest TestRunner over choice-stream generators, bounded-exhaustive sweeps, in-process libpatch oracles and subprocess runs of the real binary; shrinks failures and writes replay files; known findings in KNOWN_FINDINGS.txt",
+  }, {
+    "name": "rqv-fuzz", "path": "fuzz/", "serves_properties": ["C02", "C03", "C04", "C11", "C12"],
+    "kind_free_text": "cargo-fuzz (libFuzzer) targets parse, roundtrip and place; place feeds the fuzzer's bytes as the choice stream of the harness's structured generator; oracles are the harness checks; run by the thorough tiers",
   }],
   "checks": checks,
   "not_applicable": na,
